@@ -156,9 +156,17 @@ pub fn two_in_first(l: usize, cap: usize, sched: &[(usize, usize, usize)], br: u
 
 /// CorrelateAccessCodeTag: input tags kept at the same index; a tag "s" = U64(diffs) added
 /// on every sample where the last `codelen` inputs match the code within `allowed`.
-pub fn cac_tag(l: usize, cap: usize, sched: &[(usize, usize)], br: usize, codelen: usize, allowed: usize, tagpos: &[usize]) {
-    let input = bits_vec(l);
-    let code = bits_vec(codelen);
+pub fn cac_tag(l: usize, cap: usize, sched: &[(usize, usize)], br: usize, codelen: usize, allowed: usize, tagpos: &[usize], bits: &[u8], codebits: &[u8]) {
+    // The number of added tags is a size, so the bit pattern and the code are concrete per
+    // instance (enumerated); the identity of the input tags stays symbolic.
+    let mut input = Vec::with_capacity(l.max(1));
+    for i in 0..l {
+        input.push(bits[i]);
+    }
+    let mut code = Vec::with_capacity(codelen.max(1));
+    for i in 0..codelen {
+        code.push(codebits[i]);
+    }
     let tags = in_tags(tagpos);
     let mk = |src: ReadStream<u8>| {
         let mut c = Vec::with_capacity(4);
@@ -198,10 +206,14 @@ pub fn cac_tag(l: usize, cap: usize, sched: &[(usize, usize)], br: usize, codele
 
 /// BurstTagger: a tag "b" = Bool(level) on every sample where the trigger crosses the
 /// threshold (initially below); data and its tags pass through.
-pub fn burst_tagger(l: usize, cap: usize, sched: &[(usize, usize, usize)], br: usize, tagpos: &[usize]) {
+pub fn burst_tagger(l: usize, cap: usize, sched: &[(usize, usize, usize)], br: usize, tagpos: &[usize], above: &[bool]) {
     let ia = sym_vec::<u8>(l);
     let trig = sym_vec::<f32>(l);
     let th: f32 = any();
+    // where the trigger is above the threshold decides how many tags are added: a size
+    for i in 0..l {
+        assume((trig[i] > th) == above[i]);
+    }
     let ta = in_tags(tagpos);
     let mut r = Rig21::new(cap, cap, &|a, b| BurstTagger::<u8>::new(a, b, th, "b"));
     for (fa, fb, d) in sched {
